@@ -1,7 +1,7 @@
 # Shared machinery for the /verif checks: builds from /repo's working tree (cached by
 # content hash), harness execution with watchdogs, sanitizer-log parsing, known-findings
 # matching and evidence writing.  python3 stdlib only.
-import os, sys, json, hashlib, subprocess, time, fcntl, shutil, re, signal, glob, random
+import fnmatch, os, sys, json, hashlib, subprocess, time, fcntl, shutil, re, signal, glob, random
 from concurrent.futures import ThreadPoolExecutor
 
 VERIF = os.path.dirname(os.path.dirname(os.path.abspath(__file__)))
@@ -426,7 +426,7 @@ class Verdict:
     def _match_known(self, key):
         for k in self.known:
             kk = k["key"]
-            if kk == key or (kk.endswith("*") and key.startswith(kk[:-1])):
+            if kk == key or fnmatch.fnmatchcase(key, kk):
                 return k
         return None
 
@@ -441,8 +441,13 @@ class Verdict:
                 known_hit.append((key, k, v))
             else:
                 new.append((key, v))
+        grouped = {}
         for key, k, v in known_hit:
-            print("KNOWN-FINDING: property=%s %s [key=%s, seen %d times]" % (self.pid, k["what"], key, v["count"]))
+            g = grouped.setdefault(id(k), dict(k=k, keys=[], count=0))
+            g["keys"].append(key)
+            g["count"] += v["count"]
+        for g in grouped.values():
+            print("KNOWN-FINDING: property=%s %s [keys=%s, seen %d times]" % (self.pid, g["k"]["what"], ",".join(g["keys"][:4]), g["count"]))
         rc = 0
         if new:
             os.makedirs(self.wit_dir, exist_ok=True)
@@ -521,3 +526,111 @@ def get_seed():
         return int(os.environ.get("VERIF_SEED", "1"))
     except ValueError:
         return 1
+
+
+# ----------------------------------------------------------------------------------------
+# Resumable sharded execution: a shard that dies (fatal sanitizer report, crash, CPU-time
+# hang) names the case in flight; the shard is restarted with --skip <case index>.
+
+def run_resumable(binary, base_args, nshards, timeout, work, env=None, max_restarts=25, tag="r", skip0=-1):
+    def shard(i):
+        skip = skip0
+        outs = []
+        for attempt in range(max_restarts):
+            outfile = os.path.join(work, "%s.%d.%d.jsonl" % (tag, i, attempt))
+            args = list(base_args) + ["--shard", str(i), "--nshards", str(nshards), "--skip", str(skip), "--out", outfile]
+            r = run_proc([binary] + args, timeout=timeout, env=env, cwd=work)
+            r["recs"] = read_jsonl(outfile)
+            r["reports"] = parse_sanitizer_text(r["out"])
+            r["shard"] = i
+            outs.append(r)
+            if any(x.get("t") == "sum" for x in r["recs"]):
+                break
+            idx = None
+            for x in r["recs"]:
+                if x.get("t") == "crash":
+                    idx = x.get("index")
+                    r["crash"] = x
+            if idx is None:
+                for rep in reversed(r["reports"]):
+                    c = rep.get("case")
+                    if isinstance(c, dict) and "i" in c:
+                        idx = c["i"]
+                        break
+            if r["timed_out"] or idx is None or idx <= skip:
+                r["unresumable"] = True
+                break
+            skip = idx
+        return outs
+    with ThreadPoolExecutor(min(nshards, NCPU)) as ex:
+        return list(ex.map(shard, range(nshards)))
+
+
+def bt_function(bt):
+    """First frame of a backtrace_symbols() list that lies in Pistache (demangled when possible)."""
+    for fr in bt or []:
+        m = re.search(r"\((_ZN?K?8Pistache[^+)]*)", fr)
+        if m:
+            sym = m.group(1)
+            try:
+                out = subprocess.run(["c++filt", sym], stdout=subprocess.PIPE, text=True).stdout.strip()
+                return _short_fn(out)
+            except OSError:
+                return sym[:60]
+    return "?"
+
+
+def collect_runs(v, results, case_label=None, judge_report=None):
+    """Fold the records / sanitizer reports / crashes of run_resumable() into the verdict.
+    Returns (counters, distinct, samples, stats)."""
+    counters, distinct, samples = {}, set(), []
+    stats = dict(sanitizer_reports_seen=0, sanitizer_report_keys={}, resumed_after_fatal=0, processes=0)
+    label = case_label or (lambda c: "%s:%s" % (c.get("phase", c.get("kind", "?")), c.get("class", c.get("shape", c.get("target", "?")))))
+    for outs in results:
+        stats["resumed_after_fatal"] += len(outs) - 1
+        for r in outs:
+            stats["processes"] += 1
+            cnt, dis, smp = merge_harness_records([r], v)
+            for k, val in cnt.items():
+                if isinstance(val, (int, float)):
+                    counters[k] = counters.get(k, 0) + val
+                elif isinstance(val, dict):
+                    d = counters.setdefault(k, {})
+                    for kk, vv in val.items():
+                        if kk.startswith("alloc_worst"):
+                            d[kk] = max(d.get(kk, 0), vv)
+                        else:
+                            d[kk] = d.get(kk, 0) + vv
+                elif isinstance(val, list):
+                    l = counters.setdefault(k, [])
+                    for x in val:
+                        if x not in l:
+                            l.append(x)
+            distinct |= dis
+            samples += smp
+            for rep in r["reports"]:
+                stats["sanitizer_reports_seen"] += 1
+                if judge_report and not judge_report(rep):
+                    continue
+                key = san_key(rep)
+                c = rep.get("case") if isinstance(rep.get("case"), dict) else {}
+                stats["sanitizer_report_keys"][key] = stats["sanitizer_report_keys"].get(key, 0) + 1
+                v.violation(key, "%s %s in %s (%s) while running %s" % (rep["tool"], rep["kind"], rep["func"], rep["file"], label(c)),
+                            dict(case=c, stack=rep["stack"], report=rep["text"][:3000]))
+            if r.get("crash"):
+                c = r["crash"]
+                cs = c.get("case") if isinstance(c.get("case"), dict) else {}
+                fn = bt_function(c.get("bt"))
+                if c.get("sig") == 24:
+                    key = "hang:%s:%s:%s" % (cs.get("phase", "?"), cs.get("kind", cs.get("target", "?")), cs.get("cutclass", fn))
+                    what = "one parser call burned its CPU-time budget (SIGXCPU) in %s" % fn
+                else:
+                    key = "crash:sig%s:%s" % (c.get("sig"), fn)
+                    what = "signal %s in %s while running %s" % (c.get("sig"), fn, label(cs))
+                v.violation(key, what, c)
+            if r.get("unresumable"):
+                if r["timed_out"]:
+                    v.add_inconclusive("shard %s hit the wall-clock watchdog" % r.get("shard"))
+                else:
+                    v.add_inconclusive("harness died without naming a case: rc=%s tail=%r" % (r["rc"], r["out"][-300:]))
+    return counters, distinct, samples, stats
